@@ -87,7 +87,24 @@ def run(chk, prog):
             is_cl = lambda n, ids={a.node["id"] for a in clamps}: n.get("id") in ids
             for a in others:
                 pos = g.where(a.node)
-                A.require(pos is not None, "%s: store not in CFG" % f["qname"])
+                if pos is None:
+                    # the assignment sits in a helper the scanner looked into (shiftCoordinate(perp, par)): decide inside the helper,
+                    # and, if it can leave the helper unclamped, from the call site on in this function
+                    owner = [(cn_, hf_) for cn_, nm_, body_, hf_ in s.inlined if a.node.get("id") in {y["id"] for y in A.walk(body_)}]
+                    A.require(owner and owner[-1][1] is not None, "%s: store not in CFG" % f["qname"])
+                    cn_, hf_ = owner[-1]
+                    gh = Fl.CFG(hf_)
+                    hpos = gh.where(a.node)
+                    A.require(hpos is not None, "%s: store not in the helper's CFG" % f["qname"])
+                    reach_exit = _reaches_exit_avoiding(gh, hpos, is_cl)
+                    if reach_exit:
+                        cpos = g.where(cn_)
+                        A.require(cpos is not None, "%s: helper call not in CFG" % f["qname"])
+                        reach_exit = _reaches_exit_avoiding(g, cpos, is_cl)
+                    chk.check(not reach_exit, "R1", A.loc(f, {"line": a.line}),
+                              "%s: the assignment `%s.%s %s ...` is followed by the clamp max(1,min(.,size-1)) on every path to the exit" % (f["qname"].split("::")[-2], pname, coord, a.op),
+                              "%s:unclamped:%s:line-kind:%s" % (f["qname"], coord, _branch_tag(a)))
+                    continue
                 esc = g.some_path_between(pos, lambda n: False, avoid_pred=is_cl)      # reaches nothing; use exit reachability instead
                 # path from the store to the function exit avoiding every clamp?
                 reach_exit = _reaches_exit_avoiding(g, pos, is_cl)
